@@ -275,3 +275,6 @@ def replay(w):
     if w.get("kind") == "directed":
         return run_directed().violations
     return replay_value(w, check_case, PROP, CONTRACTS)
+
+
+RULE += " Also 'large' shards (one field per case with 127..70000 bytes / 31..2100 elements / 31..257 entries, on generated and hand-built classes) and an 'after failures' shard (the process first sees 330 decodes fail inside nested messages and one absurdly deep message)."
